@@ -10,13 +10,13 @@ ID = "C14"
 RULE = ("connected netlists (spanning chain + random nets of arity 2-4, weights 0.1-100) with >=4 movable modules whose discs fit (radius <= 0.3 x min die side), mixes of soft / hard (1-2 rectangles) / fixed; "
         "die shapes 1:1..25:1, sizes 1..1000; nfloorplans in {1,3,5}; start vectors only from real seeds; non-trivial = every case (>=4 movable modules); distinct = distinct (netlist, die, seed, trials)")
 ASSUMPTIONS = [
-    "every module is on some net and the netlist is connected; no terminals (zero-area nodes are outside the quantifier)",
+    "every module is on some net and the netlist is connected; terminals appear only as fixed terminals (fixed modules without rectangles); movable zero-area nodes are outside the quantifier",
     "containment judged with slack 1e-9 x die size; fixed coordinates with 1e-9 x die size (the code re-centres by (c-h)+h)",
     "only start vectors an actual seed produces are used (a hand-made degenerate start would be a false alarm by construction)",
 ]
 CASES = {"quick": 480, "thorough": 6000}
 MIN_CASES = {"quick": 60, "thorough": 1500}
-REQUIRED_COUNTERS = ["trials_judged_by_contract", "layouts_judged", "movable_discs_checked", "fixed_modules_checked", "hard_modules_checked"]
+REQUIRED_COUNTERS = ["trials_judged_by_contract", "layouts_judged", "movable_discs_checked", "fixed_modules_checked", "fixed_terminals_checked", "hard_modules_checked"]
 SOFT_DEADLINE = {"quick": 200, "thorough": 3300}
 
 _state = {"trials": []}
@@ -88,6 +88,9 @@ def generate(rng, tier, i):
         w, h = rng.uniform(0.05, 0.2) * W, rng.uniform(0.05, 0.2) * H
         cx, cy = rng.uniform(w / 2, W - w / 2), rng.uniform(h / 2, H - h / 2)
         mods[f"F{k}"] = {"fixed": True, "rectangles": [[float(f"{v:.6g}") for v in (cx, cy, w, h)]]}
+    for k in range(rng.choice([0, 0, 1, 2])):
+        # fixed terminals (I/O pins): fixed modules without rectangles, kept where they are
+        mods[f"T{k}"] = {"terminal": True, "fixed": True, "center": [float(f"{rng.choice([0.0, W, rng.uniform(0, W)]):.6g}"), float(f"{rng.uniform(0, H):.6g}")]}
     names = list(mods)
     rng.shuffle(names)
     nets = []
@@ -129,7 +132,7 @@ def check(case, ctx):
     before = nu.summary(sp)
     pre = {}
     for m in sp.modules:
-        if m.is_hard:
+        if m.is_hard and m.num_rectangles > 0:
             cx, cy = centroid(m.rectangles)
             pre[m.name] = {"centroid": (cx, cy), "offs": [(r.center.x - cx, r.center.y - cy, r.shape.w, r.shape.h) for r in m.rectangles]}
     _state["trials"] = []
@@ -167,6 +170,12 @@ def check(case, ctx):
         rad = math.sqrt(m.area() / math.pi)
         if m.is_fixed:
             ctx.count("fixed_modules_checked")
+            if m.is_terminal:
+                ctx.count("fixed_terminals_checked")
+                c0 = b["center"]
+                if m.center is None or abs(m.center.x - c0[0]) > 1e-9 * W or abs(m.center.y - c0[1]) > 1e-9 * H:
+                    ctx.violation("fixed_moved", f"fixed terminal {m.name} moved from {c0} to {m.center} :: {what}")
+                continue
             if [nu.rect_tuple(r) for r in m.rectangles] != b["rectangles"]:
                 ctx.violation("fixed_moved", f"fixed module {m.name}: rectangles {b['rectangles']} -> {[nu.rect_tuple(r) for r in m.rectangles]}")
             continue
